@@ -258,8 +258,7 @@ Proof.
       { destruct e as [v sz|bb|raw|lv path|uo a|o a b|c t f|l r a|s a|es|f args];
           try (left; cbn [chain ochain]; destruct (needs_paren full _ _); reflexivity).
         - destruct o; try (right; cbn; lia); left; cbn [olev prec binop_prec] in *;
-            cbn [chain ochain binop_prec Nat.eqb]; rewrite Enp0; reflexivity.
-        - right; cbn; lia. }
+            cbn [chain ochain binop_prec Nat.eqb]; rewrite Enp0; reflexivity. }
       destruct Hc as [-> | Hle].
       * revert Hown. apply SpecAt_weaken; lia.
       * destruct (olev e) as [|[|q]]; [| |lia];
